@@ -109,6 +109,39 @@ def check_deep(case, acc):
     acc.tag("deep_tree_cases")
 
 
+def check_links(case, acc):
+    """A SymlinkNode stands at its OWN place in the forest: walking from or to a link that lives in another tree than the
+    other endpoint raises WalkError even if the link's target sits in that tree, and inside its own tree a link is a node
+    like any other."""
+    from anytree import Node, SymlinkNode
+
+    r = Node("r")
+    a = Node("a", parent=r)
+    b = Node("b", parent=a)
+    c = Node("c", parent=r)
+    lone = SymlinkNode(b)
+    o = Node("o")
+    inner = SymlinkNode(a, parent=o)
+    below = Node("below", parent=inner)
+    walker = Walker()
+    for x in (r, a, b, c):
+        for y in (lone, inner, below, o):
+            for s_, e_ in ((x, y), (y, x)):
+                try:
+                    got = walker.walk(s_, e_)
+                except WalkError:
+                    continue
+                raise Violation("walkerror-missing", "walk(%r, %r) across two trees returned %r (a link is in the tree where IT hangs, not where its target is)" % (s_, e_, got))
+    got = walker.walk(below, o)
+    if got[0] != (below, inner) or got[1] is not o or got[2] != ():
+        raise Violation("upwards", "walk(node below a link, root of their tree) = %r" % (got,))
+    got = walker.walk(o, below)
+    if got[0] != () or got[1] is not o or got[2] != (inner, below):
+        raise Violation("downwards", "walk(root, node below a link) = %r" % (got,))
+    acc.nontrivial(True)
+    acc.tag("links_as_walk_endpoints_across_trees")
+
+
 def check_abyss(case, acc):
     """Chains far deeper than anything else here (tens of thousands of levels, grown upwards so that building stays linear):
     the walker works on root paths, which are computed with a loop - depth is no reason for anything but the answer."""
@@ -216,6 +249,8 @@ def check_case(case, acc):
         return check_vee(case, acc)
     if case.get("kind") == "abyss":
         return check_abyss(case, acc)
+    if case.get("kind") == "links":
+        return check_links(case, acc)
     if case.get("kind") == "deep":
         return check_deep(case, acc)
     make = nodes.factory(case["cls"])
@@ -299,12 +334,18 @@ def plan(tier, seed):
     tasks += [{"engine": "hyp", "examples": examples, "seed": seed * 1000 + i} for i in range(nshards)]
     tasks += [{"engine": "deep", "depth": d, "cls": c} for d in ((700, 1500) if tier == "quick" else (300, 700, 1500, 3000)) for c in ("Node", "SlotLM", "AnyNode")]
     tasks += [{"engine": "vee", "depth": d, "cls": c, "trunk": t} for d in ((300,) if tier == "quick" else (140, 300, 1200)) for c in ("Node", "SlotLM", "EqNode", "EqSlotLM", "LenNode") for t in ((0, 70) if tier == "quick" else (0, 31, 70, 200))]
-    tasks += [{"engine": "optimised"}]
+    tasks += [{"engine": "optimised"}, {"engine": "links"}]
     tasks += [{"engine": "abyss", "depth": d, "cls": c} for d in ((70000, 140000) if tier == "quick" else (40000, 70000, 140000, 300000)) for c in ("Node", "SlotLM")]
     return tasks
 
 
 def run_task(task, acc):
+    if task["engine"] == "links":
+        case = {"kind": "links"}
+        exc = acc.evaluate(check_case, case, enumerated=False)
+        if exc is not None:
+            acc.add_violation(case, exc)
+        return
     if task["engine"] == "abyss":
         case = {"kind": "abyss", "depth": task["depth"], "cls": task["cls"]}
         exc = acc.evaluate(check_case, case, enumerated=False)
